@@ -11,9 +11,20 @@ Record c05_case := mkCase5 {
 Definition retry_model (c : c05_case) (s : fs) (ops : list bop) : outcome unit * world :=
   let b := k5_base c in run_save (k_cfg b) ops false s (k_umask b) None [].
 
+(* sanity of the case data: a hard-linked part file is described like the destination; the measured
+   buffering oracle of the retry is in range and the retry writes the same bytes *)
+Definition case_ok (c : c05_case) : bool :=
+  let b := k5_base c in
+  (negb (k_partlink b) ||
+   option_eqb C04_Check.file_eqb (assoc (c_part (k_cfg b)) (k_init b)) (assoc (c_dest (k_cfg b)) (k_init b))) &&
+  match k5_retry c with
+  | Some (ops, _) => oracle_ok 0 0 ops && bytes_eqb (new_content ops) (new_content (k_body b))
+  | None => true
+  end.
+
 Definition agree5 (c : c05_case) : bool :=
   let b := k5_base c in
-  agree b &&
+  case_ok c && agree b &&
   match k5_retry c with
   | None => true
   | Some (ops, r) =>
@@ -39,23 +50,32 @@ Definition others_same (b : c04_case) (f : files) : bool :=
                     option_eqb C04_Check.file_eqb (assoc n f) (assoc n (k_init b)))
           (map fst f ++ map fst (k_init b)).
 
-Definition holds5 (c : c05_case) : bool :=
+(* everything but the no-clobber clause (whose input, "the other process really got in", is reported by
+   the harness and not reproduced by the model) *)
+Definition spec5_core (c : c05_case) : bool :=
   let b := k5_base c in
   let g := k_cfg b in
   let r := k_run b in
-  c05_spec (c_overwrite g) (c_overwrite_part g) (c_rm_part_on_exc g) (c_file_perms g) (k_umask b)
-           (c_fdopen_invalid g)
-           (assoc (c_dest g) (k_init b)) (assoc (c_part g) (k_init b))
-           (appeared_files (k_sched b))
-           (new_content (k_body b))
-           (is_raise (r_outcome r)) (assoc (c_dest g) (r_files r)) (assoc (c_part g) (r_files r))
-           (unlink_failed (c_part g) (r_trace r)) (others_same b (r_files r)) (r_intruded r)
-           (match k5_retry c with
-            | None => None
-            | Some (_, r2) => Some (is_raise (r_outcome r2), assoc (c_dest g) (r_files r2),
-                                    present (assoc (c_part g) (r_files r2)))
-            end)
-  && C04_Check.holds b.       (* a faulty run must not expose a partial destination either *)
+  c05_core (c_overwrite g) (c_overwrite_part g) (c_rm_part_on_exc g) (c_file_perms g) (k_umask b)
+       (c_fdopen_invalid g)
+       (assoc (c_dest g) (k_init b)) (assoc (c_part g) (k_init b))
+       (appeared_files (k_sched b))
+       (new_content (k_body b))
+       (is_raise (r_outcome r)) (assoc (c_dest g) (r_files r)) (assoc (c_part g) (r_files r))
+       (unlink_failed (c_part g) (r_trace r)) (others_same b (r_files r))
+       (match k5_retry c with
+        | None => None
+        | Some (_, r2) => Some (is_raise (r_outcome r2), assoc (c_dest g) (r_files r2),
+                                present (assoc (c_part g) (r_files r2)))
+        end).
+
+Definition holds5_core (c : c05_case) : bool :=
+  spec5_core c && C04_Check.holds (k5_base c).  (* a faulty run must not expose a partial destination either *)
+
+Definition holds5 (c : c05_case) : bool :=
+  let b := k5_base c in
+  holds5_core c &&
+  noclobber_ok (c_overwrite (k_cfg b)) (is_raise (r_outcome (k_run b))) (r_intruded (k_run b)).
 
 (* open finding C05-link-unlink: the no-clobber publication is link(part, dest) then unlink(part); when the
    unlink fails after the link succeeded the caller gets the OSError although the destination already holds
